@@ -5,3 +5,5 @@ import IppModel.Props.C01
 #print axioms Ipp.Props.C01.singleton_set
 #print axioms Ipp.Props.C01.roundtrip_any
 #print axioms Ipp.Props.C01.opFirst_id_of_wf
+#print axioms Ipp.Props.C01.opFirst_only_reorders
+#print axioms Ipp.Props.C01.opFirst_without_operation_group
